@@ -119,9 +119,9 @@ FullTimes  == {<<0, 0, 0, 0>>, <<12, 30, 15, 0>>, <<23, 59, 59, 999999>>, <<24, 
 SmallTimes == {<<0, 0, 0, 0>>, <<12, 30, 15, 50000>>, <<23, 59, 59, 999999>>, <<24, 0, 0, 0>>}
 TinyTimes  == {<<0, 0, 0, 0>>, <<23, 59, 59, 999999>>}
 Times == IF GridName = "tiny" THEN TinyTimes ELSE IF GridName = "small" THEN SmallTimes ELSE FullTimes
-FullTZs  == {NoTZ, 0, 840, -840, 330}
-SmallTZs == {NoTZ, 0, -840, 330}
-TinyTZs  == {NoTZ, -840}
+FullTZs  == {NoTZ, 0, 840, -840, 330, -570}
+SmallTZs == {NoTZ, 0, -840, 330, -570}
+TinyTZs  == {NoTZ, -570}
 TZs == IF GridName = "tiny" THEN TinyTZs ELSE IF GridName = "small" THEN SmallTZs ELSE FullTZs
 
 Raw(k, y, md, t, tz) ==
@@ -166,7 +166,7 @@ OtherRaws == <<
   <<-1, <<12, 31>>, <<12, 30, 15, 0>>, -840>>,
   <<-820, <<3, 1>>, <<0, 0, 0, 0>>, 0>>,
   <<9999, <<12, 31>>, <<23, 59, 59, 999999>>, -840>>,
-  <<10000, <<1, 1>>, <<0, 0, 0, 0>>, 330>>,
+  <<10000, <<1, 1>>, <<0, 0, 0, 0>>, -570>>,
   <<400000, <<3, 1>>, <<12, 30, 15, 0>>, NoTZ>>,
   <<-400001, <<12, 31>>, <<0, 0, 0, 0>>, 0>>,
   <<2000, <<1, 1>>, <<0, 0, 0, 0>>, 840>> >>
